@@ -131,6 +131,15 @@ theorem mem_justZero {X : IR} (h : X.justZero = true) {v : Int} (hv : X.mem v) :
   rw [h1] at a; rw [h2] at b
   simp at a b; omega
 
+/-- the set of concrete results `{f x y | x ∈ X, y ∈ Y}` -/
+def Img (f : Int → Int → Int) (X Y : IR) (v : Int) : Prop :=
+  ∃ x y, X.mem x ∧ Y.mem y ∧ f x y = v
+
+/-- `Z` is a finite interval whose two bounds are concrete results (with soundness: `Z` is
+exactly the hull of the concrete results) -/
+def TightHull (f : Int → Int → Int) (X Y Z : IR) : Prop :=
+  ∃ l h, Z = ⟨some l, some h⟩ ∧ Img f X Y l ∧ Img f X Y h
+
 /-! ### `biggerInt` / `biggerIntPair` semantics -/
 
 /-- `a ≤ v` for an extended lower bound (`+∞` = nothing yet) -/
